@@ -324,41 +324,66 @@ def check_fresh_or(ctx):
 
 
 def check_globals(ctx, region):
+    """No module-level mutable state is written by, or handed out from,
+    the load / enforce region (one named exception)."""
+    from ..modstate import state_uses
     prog = ctx.prog
     allowed = {(CHECKS + '.get_extensions', 'extension_checks')}
+    # the parser and file cache are part of the region for this rule
+    full = dict(prog.region(ENF + '.load_rules', ENF + '.enforce'))
     n = 0
-    for q, f in sorted(region.items()):
-        mod = f.module
-        locals_ = set(f.params)
-        for x in walk_no_nested(f.node):
-            if isinstance(x, ast.Name) and isinstance(x.ctx, ast.Store):
-                locals_.add(x.id)
-        globs = set()
-        for x in walk_no_nested(f.node):
-            if isinstance(x, ast.Global):
-                globs |= set(x.names)
-        for e in effects_of(f):
-            root = e.path.split('.')[0].split('[')[0]
-            is_glob = (e.kind == 'global') or (
-                root in mod.assigns and (root not in locals_
-                                         or root in globs)
-                and root not in mod.imports)
-            if not is_glob:
-                continue
-            n += 1
-            ok = (q, root) in allowed
-            ctx.ob('C12.GLOBALS', ok, ctx.where(mod, e.node), q,
-                   U(e.node)[:100],
-                   'memoised extension table (named exception: computed '
-                   'once from entry points, independent of any enforcer)'
-                   if ok else
-                   'loading/enforcing writes module-level state `%s`: '
-                   'enforcers sharing the module influence one another'
-                   % root)
+    for f, node, name, how in state_uses(prog, full):
+        n += 1
+        ok = (f.qual, name) in allowed
+        ctx.ob('C12.GLOBALS', ok, ctx.where(f.module, node), f.qual,
+               '%s module-level `%s`' % (how, name),
+               'memoised extension table (named exception: computed once '
+               'from entry points, independent of any enforcer)' if ok else
+               'loading/enforcing %s the module-level object `%s`: state '
+               'shared by every enforcer in the process, so enforcers built '
+               'from the same objects influence one another' % (how, name))
     if n == 0:
         ctx.ob('C12.GLOBALS', True, ctx.where(
             prog.module(POLICY), prog.module(POLICY).tree), POLICY,
-            'module-level writes in the region', 'none', nontrivial=False)
+            'module-level state in the region (%d functions)' % len(full),
+            'none written or handed out', nontrivial=False)
+
+
+def check_identity(ctx, rule='C12.IDENTITY'):
+    """Check objects keep Python's default identity / copy semantics: the
+    deep copy at registration and the freshness of every parsed tree rely on
+    it."""
+    prog = ctx.prog
+    base = CHECKS + '.BaseCheck'
+    special = ('__new__', '__copy__', '__deepcopy__', '__reduce__',
+               '__reduce_ex__', '__getstate__', '__setstate__',
+               '__init_subclass__', '__class_getitem__')
+    n = 0
+    bad = 0
+    for q in sorted(prog.subclasses(base)) + [POLICY + '._BaseRule',
+                                              POLICY + '.RuleDefault',
+                                              POLICY + '.DeprecatedRule']:
+        c = prog.classes.get(q)
+        if c is None:
+            continue
+        n += 1
+        for m in special:
+            if m in c.methods:
+                bad += 1
+                f = c.methods[m]
+                ctx.ob(rule, False, ctx.where(f.module, f.node), f.qual,
+                       '%s.%s' % (c.name, m),
+                       '%s overrides %s: instances may be shared or copied '
+                       'by reference, so state set on one check / default '
+                       '(scope types, merged children) shows up on others '
+                       'and the deep copy taken at registration no longer '
+                       'isolates the service\'s objects' % (c.name, m))
+    if not bad:
+        ctx.ob(rule, True, ctx.where(prog.module(CHECKS),
+                                     prog.module(CHECKS).tree), CHECKS,
+               '%d check / rule-default classes' % n,
+               'none overrides construction or copying (__new__, __copy__, '
+               '__deepcopy__, __reduce__...)')
 
 
 def check(ctx):
@@ -377,6 +402,19 @@ def check(ctx):
     check_mutators(ctx)
     check_fresh_or(ctx)
     check_globals(ctx, region)
+    check_identity(ctx)
+    # C12.RELOAD: loading again after files changed equals loading once
+    # (the necessary conditions of C09.FIND / C10, reported under C12)
+    from . import c10 as _c10, c09 as _c09
+    nf, no = len(ctx.findings), len(ctx.obligations)
+    _c09.check_find(ctx)
+    _c10.check_dir_mtime(ctx)
+    _c10.check_stale(ctx)
+    _c10.check_reapply_and_reset(ctx)
+    for fd in ctx.findings[nf:]:
+        fd.rule = 'C12.RELOAD(' + fd.rule + ')'
+    for o in ctx.obligations[no:]:
+        o['rule'] = 'C12.RELOAD(' + o['rule'] + ')'
     # C12.ONCE (= C11.GATE / C09.ORDER): what is stored for a registered
     # default is computed from the default at every load (no memo), and
     # only for names absent from the store
